@@ -168,7 +168,11 @@ func FindingsMain() int {
 			status += " (second layer: expected to reproduce only after fix " + k.After + ")"
 		}
 		fmt.Printf("# %s [%s] fix=%q: %s\n", k.Name, k.Tag, k.Fix, status)
-		fmt.Printf("open: property=C19 %s %s :: {\"witness\":%s,\"sig\":%s,\"tag\":%s}\n", k.Name, k.What, w, sig, tag)
+		prefix := ""
+		if !matched {
+			prefix = "#" // must not be listed while the witness does not fail with this signature
+		}
+		fmt.Printf("%sopen: property=C19 %s %s :: {\"witness\":%s,\"sig\":%s,\"tag\":%s}\n", prefix, k.Name, k.What, w, sig, tag)
 	}
 	return bad
 }
